@@ -97,7 +97,10 @@ class SyncDispatcher:
 
     def trigger_receiver(self):
         if self._busy:
+            # re-entrant trigger (a handler sends while the receive step runs): serve the send queue now - the caller
+            # is about to wait for its block - and re-run the receive step afterwards
             self._again = True
+            self._p._process_send_queue()
             return
         self._busy = True
         try:
